@@ -672,9 +672,21 @@ fn main() {
     for k in 0..a.num("--huge", 0) {
         let n: u64 = [1_000_050u64, 1_048_600, 1_300_000][(k % 3) as usize];
         let mut inputs = vec![grid_in("B", 1000, 1, "norm"), grid_in("B", 1000, 2, "norm")];
+        // even k: the huge queue belongs to a SECOND, still unconfirmed lifecycle of ECU A (its messages arrive with 2 ticks more
+        // buffering delay than A's first message, so their start estimate lies behind the end of A's first lifecycle), and the message
+        // behind the queue arrives with the small delay again: the queued lifecycle is merged into its predecessor while > 10^6 of its
+        // messages wait.  odd k: one unconfirmed lifecycle, no merge.
+        let late_merge = k % 2 == 0;
+        if late_merge {
+            inputs.push(grid_in("A", 1000, 1, "norm"));
+        }
+        let d = if late_merge { 2 } else { 0 };
         for i in 0..n {
             // all within 10 ticks of reception time and 10 ticks of uptime: nothing can be confirmed meanwhile
-            inputs.push(grid_in("A", 1000 + i * 10 / n, 1 + i * 10 / n, if i % 1000 == 999 { "ctrl" } else { "norm" }));
+            inputs.push(grid_in("A", 1000 + d + i * 10 / n, 1 + i * 10 / n, if i % 1000 == 999 { "ctrl" } else { "norm" }));
+        }
+        if late_merge {
+            inputs.push(grid_in("A", 1013, 14, "norm"));
         }
         for j in 0..6u64 {
             inputs.push(grid_in(if j % 2 == 0 { "A" } else { "B" }, 1075 + j, 80 + j, "norm"));
